@@ -42,34 +42,59 @@ def r1(ctx):
     sh = ctx.fn(F + "serializeHeader")
     sd = ctx.fn(F + "serializeDataHeader")
     rows = []
+    packs_h = [s for s in struct_sites(sh, ctx.folder) if s.kind == "pack"]
     for cell in _cells():
-        sym = {"self.payload_length": Iv(cell[0], cell[1]), "self.flags.mask": Iv(0, 1), "self.flags.fin": Iv(0, 1), "self.flags.rsv1": Iv(0, 1),
-               "self.flags.rsv2": Iv(0, 1), "self.flags.rsv3": Iv(0, 1), "self.flags.opcode.value": Iv(0, 15)}
-        # evaluate the selection chain only (the value of `length` before the mask bit is or-ed in)
-        sel = [n for n in sh.node.body if isinstance(n, ast.If) and "payload_length" in norm(n.test)]
-        if len(sel) != 1:
-            ctx.undecided("C18.R1", sh, "length-form selection chain not found")
-        ex2 = Explorer(ctx.folder, sh, sym=sym, call_hook=_hook)
-        states = ex2._block([sel[0]], [({}, [], [])])
+        base = {"self.payload_length": Iv(cell[0], cell[1]), "self.flags.fin": Iv(0, 1), "self.flags.rsv1": Iv(0, 1),
+                "self.flags.rsv2": Iv(0, 1), "self.flags.rsv3": Iv(0, 1), "self.flags.opcode.value": Iv(0, 15)}
+        # the length byte that serializeHeader packs, for an unmasked and for a masked frame: whatever statements, conditional
+        # expressions or temporaries compute it, its value on the cell is 126 / 127 / the payload length (+ 128 when masked)
         vals = set()
-        for (env, path, events) in states:
-            v = env.get("length")
-            if isinstance(v, Iv) and v.is_const():
-                vals.add(int(v.lo))
-            elif isinstance(v, Iv) and v == Iv(cell[0], cell[1]):
-                vals.add("value")
-            else:
-                vals.add(repr(v))
+        maskbit = set()
+        for mask in (0, 1):
+            packed = []
+
+            def hook(call, args, env, packed=packed):
+                f = norm(call.func)
+                if f == "struct.pack":
+                    packed.append(args)
+                    return TOP
+                if f.endswith(".append") or f.endswith(".join"):
+                    return TOP
+                return None
+            ex2 = Explorer(ctx.folder, sh, sym=dict(base, **{"self.flags.mask": Iv(mask)}), call_hook=hook)
+            ex2.explore({})
+            for a_ in packed:
+                v = a_[-1] if a_ else None
+                lo, hi = cell
+                if isinstance(v, Iv) and v.is_const() and int(v.lo) - 128 * mask in (126, 127):
+                    vals.add(int(v.lo) - 128 * mask)
+                    maskbit.add(mask)
+                elif isinstance(v, Iv) and v == Iv(lo + 128 * mask, hi + 128 * mask):
+                    vals.add("value")
+                    maskbit.add(mask)
+                else:
+                    vals.add(repr(v))
         ctx.analysed["cells"] += 1
-        exd = Explorer(ctx.folder, sd, sym=sym, call_hook=_hook)
-        outs = exd.explore({})
+        fmts = []
+
+        def hook_d(call, args, env, fmts=fmts):
+            f = norm(call.func)
+            if f == "struct.pack":
+                fmts.append(args[0].v if args and isinstance(args[0], Const) else repr(args[0]) if args else None)
+                return TOP
+            if f.endswith(".append") or f.endswith(".join"):
+                return TOP
+            return None
         ext = set()
-        for o in outs:
-            e = [x for x in o.events if "struct.pack" in x]
-            fm = tuple(re.findall(r"struct\.pack\('([^']+)'", " ".join(e)))
-            ext.add(fm)
-        rows.append((cell, vals, ext))
-    for (cell, vals, ext) in rows:
+        for mask in (0, 1):
+            del fmts[:]
+            exd = Explorer(ctx.folder, sd, sym=dict(base, **{"self.flags.mask": Iv(mask)}), call_hook=hook_d)
+            outs = exd.explore({})
+            # one tuple of formats per path: the hook sees the calls of all paths of this exploration in order; on a cell every
+            # test on the length is definitive, so there is one path
+            ext.add(tuple(fmts) if len(outs) <= 1 else ("several paths",) + tuple(fmts))
+        rows.append((cell, vals, ext, maskbit))
+    for (cell, vals, ext, maskbit) in rows:
         lo, hi = cell
         if hi <= 125:
             want_v, want_e = {"value"} if lo != hi else {"value", lo}, {()}
@@ -85,9 +110,11 @@ def r1(ctx):
                   "the length form announced in the header is the one written after it",
                   witness={"serializeHeader": sorted(map(str, vals)), "serializeDataHeader": sorted(map(str, ext))})
     ctx.check(INT_RANGE["H"][1] == 65535 and INT_RANGE["Q"][1] >= 2 ** 63 - 1, "C18.R1", sd, "cells fit their formats (!H up to 65535, !Q beyond)")
-    # the mask bit is or-ed into bit 7 of the length byte, after the selection
-    orr = [n for n in walk_own(sh.node) if isinstance(n, ast.AugAssign) and isinstance(n.op, ast.BitOr) and norm(n.target) == "length"]
-    ctx.check(len(orr) == 1 and norm(orr[0].value) == "self.flags.mask << 7", "C18.R1", sh, "mask flag is bit 7 of the length byte", witness=[norm(o) for o in orr])
+    # the mask bit is bit 7 of the length byte: decided above (the packed byte is the form + 128 exactly when the mask flag is 1)
+    ctx.check(all(mb == {0, 1} for (_c, _v, _e, mb) in rows), "C18.R1", sh, "mask flag is bit 7 of the length byte",
+              witness=[sorted(mb) for (_c, _v, _e, mb) in rows][:3])
+    ctx.check(len(packs_h) == 1 and fmt_fields(packs_h[0].fmt)[1] == ["B", "B"], "C18.R1", sh, "the header is two bytes: flags/opcode, mask bit + length form",
+              witness=[p_.fmt for p_ in packs_h])
     mk = [n for n in walk_own(sd.node) if isinstance(n, ast.If) and norm(n.test) == "self.flags.mask"]
     ok = len(mk) == 1 and any("self.masking_key" in norm(s) for s in mk[0].body)
     ctx.check(ok, "C18.R1", sd, "the masking key follows the extended length iff the mask flag is set")
@@ -134,8 +161,18 @@ def r3(ctx):
     if ok:
         ctx.check([norm(a) for a in p[0].args] == ["flags", "length"] and [norm(e) for e in u[0].call._parent.targets[0].elts] == ["flags", "length"], "C18.R3", sh,
                   "(flags, length) in the same order on both sides")
-    pe = sorted(fmt_fields(s.fmt) for s in struct_sites(sd, ctx.folder) if s.kind == "pack")
-    ue = sorted(fmt_fields(s.fmt) for s in struct_sites(rd, ctx.folder) if s.kind == "unpack")
+    def formats(site):
+        """the format(s) a pack / unpack site can use: a literal, or both arms of a conditional expression of literals"""
+        if site.fmt is not None:
+            return [site.fmt]
+        a0 = site.call.args[0] if site.call.args else None
+        if isinstance(a0, ast.IfExp):
+            arms = [ctx.folder.fold(x, site.fi.module) for x in (a0.body, a0.orelse)]
+            if all(isinstance(x, str) for x in arms):
+                return arms
+        return ["?"]
+    pe = sorted(fmt_fields(f_) for s in struct_sites(sd, ctx.folder) if s.kind == "pack" for f_ in formats(s))
+    ue = sorted(fmt_fields(f_) for s in struct_sites(rd, ctx.folder) if s.kind == "unpack" for f_ in formats(s))
     ctx.check(pe == ue == [(">", ["H"]), (">", ["Q"])], "C18.R3", sd, "extended lengths: network-order H and Q on both sides", witness={"pack": pe, "unpack": ue})
     # flag geometry
     ser = {}
@@ -164,11 +201,37 @@ def r3(ctx):
     ctx.check("WebSocketOpCode(" in asg.get("self.flags.opcode", ""), "C18.R3", ph, "opcode is decoded into the enum (serialize uses .value)")
     # unmasking
     rdata = ctx.fn(F + "readData")
-    xs = [n for n in walk_own(rdata.node) if isinstance(n, ast.AugAssign) and isinstance(n.op, ast.BitXor)]
-    ok = len(xs) == 1 and norm(xs[0].target) == "self.payload[i]" and norm(xs[0].value) == "self.masking_key[i % 4]"
+    # every byte i of the payload becomes payload[i] ^ masking_key[i % 4]: the index loop with ^=, the enumerate loop with an
+    # explicit store, in place; under the mask flag only
     loops = [n for n in walk_own(rdata.node) if isinstance(n, ast.For)]
-    ok = ok and len(loops) == 1 and norm(loops[0].iter) == "range(len(self.payload))" and any(isinstance(p, ast.If) and norm(p.test) == "self.flags.mask" for p in _parents(loops[0], rdata.node))
-    ctx.check(ok, "C18.R3", rdata, "payload[i] ^= masking_key[i % 4] for every byte, iff masked", witness=[norm(x) for x in xs])
+    ok = len(loops) == 1
+    wit = []
+    if ok:
+        l = loops[0]
+        P, K = "self.payload", "self.masking_key"
+        idx = val = None
+        if norm(l.iter) == "range(len(%s))" % P and isinstance(l.target, ast.Name):
+            idx = l.target.id
+        elif norm(l.iter) == "enumerate(%s)" % P and isinstance(l.target, ast.Tuple) and len(l.target.elts) == 2 and all(isinstance(e, ast.Name) for e in l.target.elts):
+            idx, val = l.target.elts[0].id, l.target.elts[1].id
+        body = [st for st in l.body if not isinstance(st, ast.Pass)]
+        wit = [norm(st) for st in body]
+        ok = idx is not None and len(body) == 1
+        if ok:
+            st = body[0]
+            key = "%s[%s %% 4]" % (K, idx)
+            cur = {"%s[%s]" % (P, idx)} | ({val} if val else set())
+            if isinstance(st, ast.AugAssign) and isinstance(st.op, ast.BitXor):
+                ok = norm(st.target) == "%s[%s]" % (P, idx) and norm(st.value) == key
+            elif isinstance(st, ast.Assign) and len(st.targets) == 1 and isinstance(st.value, ast.BinOp) and isinstance(st.value.op, ast.BitXor):
+                sides = {norm(st.value.left), norm(st.value.right)}
+                ok = norm(st.targets[0]) == "%s[%s]" % (P, idx) and key in sides and bool((sides - {key}) & cur)
+            else:
+                ok = False
+        rcfg = cfg_of(rdata)
+        conds = [(norm(t), p) for (t, p) in rcfg.conditions_of(rcfg.node_of(l).id)]
+        ok = ok and ("self.flags.mask", True) in conds
+    ctx.check(ok, "C18.R3", rdata, "payload[i] ^= masking_key[i % 4] for every byte, iff masked", witness=wit)
     rc = [c for c in calls_named(rdata, "recv")]
     ctx.check(len(rc) == 1 and norm(rc[0].args[0]) == "self.payload_length", "C18.R3", rdata, "the payload read takes exactly payload_length bytes")
     # order of the three reads / writes
